@@ -259,8 +259,15 @@ func (c *clusterClient) DownloadBlob(ctx context.Context, namespace string, d co
 
 	log.WithTraceContext(ctx).With("namespace", namespace, "digest", d.Hex()).Debug("Starting blob download from origin cluster")
 
+	cw := &countingWriter{w: dst}
 	err := Poll(c.resolver, c.defaultPollBackOff(), d, func(client Client) error {
-		return client.DownloadBlob(ctx, namespace, d, dst)
+		err := client.DownloadBlob(ctx, namespace, d, cw)
+		if err != nil && cw.n > 0 {
+			// dst cannot be rewound: trying another origin would append the
+			// blob after the bytes already written.
+			return partialWriteError{fmt.Errorf("download aborted after %d bytes: %s", cw.n, err)}
+		}
+		return err
 	})
 	if httputil.IsNotFound(err) {
 		span.SetStatus(codes.Error, "blob not found")
@@ -391,6 +398,9 @@ ORIGINS:
 						return err
 					}
 				}
+				if _, ok := err.(partialWriteError); ok {
+					return err
+				}
 				errs = append(errs, fmt.Errorf("origin %s: %s", client.Addr(), err))
 				continue ORIGINS
 			}
@@ -400,4 +410,23 @@ ORIGINS:
 			fmt.Errorf("origin %s: backoff timed out on 202 responses", client.Addr()))
 	}
 	return fmt.Errorf("all origins unavailable: %s", errutil.Join(errs))
+}
+
+// partialWriteError is returned by a Poll request that failed after it had
+// already produced output which cannot be taken back. Poll does not try
+// other origins after it.
+type partialWriteError struct {
+	error
+}
+
+// countingWriter counts the bytes written through it.
+type countingWriter struct {
+	w io.Writer
+	n int64
+}
+
+func (c *countingWriter) Write(p []byte) (int, error) {
+	n, err := c.w.Write(p)
+	c.n += int64(n)
+	return n, err
 }
